@@ -3,6 +3,7 @@ import UscxmlVerif.Model.Fast
 import UscxmlVerif.Proofs.CfgInv
 import UscxmlVerif.Proofs.Root
 import UscxmlVerif.Proofs.ExitClosed
+import UscxmlVerif.Proofs.ParentsFast
 /-!
 # C02 — the active configuration is legal after every micro-step (the part that needs no assumption)
 
@@ -52,6 +53,38 @@ theorem exiting_never_orphans_partial (d : Doc) (late : Bool) (hwf : Proofs.Flat
       (config.filter (fun s => !(Large.selectLoop (flatten d late) config ev pf { x := xs }).exitSet.contains s)) :=
   Proofs.ExitClosed.exit_keeps_parents (flatten d late) (Proofs.Flatten.coherent_flatten d late hwf hroot)
     (Proofs.Subtree.intervalOK_flatten d late hwf hroot) config ev pf xs hcfg hclosed hplain
+
+/-- **partial** (clause 4 of `legal` in full, and the hypothesis `ConfigOk` of the structural theorems of C01/C03, for history-free
+charts): on a chart that is coherent, numbered in pre-order, without history states and whose selectable transitions are plain
+(`EntryOk`, `SelPlain`, `SelPlainF`: decidable, evaluated on every generated chart by the driver), after every sequence of API
+operations on either engine every active state is a state of the chart, the root or a real state, and has its parent active.
+With history states the statement is false of the code as it stands (`hist-shared` below). -/
+theorem parents_stay_active_partial (c : Chart) (hcoh : Proofs.Struct.Coherent c = true) (hi : Proofs.Interval.IntervalOK c = true)
+    (hk : Proofs.EntryClosed.EntryOk c = true) (hp : Proofs.Parents.SelPlain c = true) (hpf : Proofs.ParentsFast.SelPlainF c = true)
+    (eng : Engine) (ops : List Op) :
+    Proofs.ExitClosed.ParentClosed c (run eng c ops).a.e.config ∧ Proofs.Struct.ConfigOk c (run eng c ops).a.e.config := by
+  have hk' := Proofs.EntryClosed.eok_of_entryOk hk
+  have h := Proofs.ParentsFast.run_pc c hcoh hi hk' hp hpf eng ops
+  exact ⟨h.1, Proofs.Parents.configOk_of_pc hk' h⟩
+
+/-- the same for `flatten` of every well-formed document: coherence and the numbering are theorems there -/
+theorem parents_stay_active_of_document_partial (d : Doc) (late : Bool) (hwf : Proofs.Flatten.WFDoc d = true) (hroot : d.kind = .scxml)
+    (hk : Proofs.EntryClosed.EntryOk (flatten d late) = true) (hp : Proofs.Parents.SelPlain (flatten d late) = true)
+    (hpf : Proofs.ParentsFast.SelPlainF (flatten d late) = true) (eng : Engine) (ops : List Op) :
+    Proofs.ExitClosed.ParentClosed (flatten d late) (run eng (flatten d late) ops).a.e.config ∧
+      Proofs.Struct.ConfigOk (flatten d late) (run eng (flatten d late) ops).a.e.config :=
+  parents_stay_active_partial (flatten d late) (Proofs.Flatten.coherent_flatten d late hwf hroot)
+    (Proofs.Subtree.intervalOK_flatten d late hwf hroot) hk hp hpf eng ops
+
+/-- one engine step keeps the invariant from any state that has it (not only from reachable ones) -/
+theorem step_keeps_parents (c : Chart) (hcoh : Proofs.Struct.Coherent c = true) (hi : Proofs.Interval.IntervalOK c = true)
+    (hk : Proofs.EntryClosed.EntryOk c = true) (hp : Proofs.Parents.SelPlain c = true) (hpf : Proofs.ParentsFast.SelPlainF c = true)
+    (eng : Engine) (e : EState) (h : Proofs.Parents.PC c e) : Proofs.Parents.PC c (engineStep eng c e).1 :=
+  Proofs.ParentsFast.engineStep_pc c hcoh hi (Proofs.EntryClosed.eok_of_entryOk hk) hp hpf eng e h
+
+/-- the hypotheses hold of a concrete chart with a compound state and a transition out of it -/
+example : Proofs.EntryClosed.EntryOk Properties.C05.sample = true ∧ Proofs.Parents.SelPlain Properties.C05.sample = true ∧
+    Proofs.ParentsFast.SelPlainF Properties.C05.sample = true := by decide
 
 /-- the full statement is false of the code as it stands (recorded finding `hist-shared`): a configuration the engines
 reach on a chart with nested histories holds two children of a compound state. The witness is replayed on the compiled
